@@ -92,8 +92,8 @@ pub enum Ctor {
     NewThenExtend(usize),
     /// `Default::default()` (empty collections only)
     Default,
-    /// like NewThenExtend, but the iterator given to `extend` panics once it has yielded its
-    /// last item (the panic is caught; the collection must be whole afterwards)
+    /// like NewThenExtend, but first `extend` is called with an iterator that panics before it
+    /// yields anything (the panic is caught); then the real items are added
     NewThenExtendPanicky(usize),
 }
 
@@ -254,6 +254,9 @@ pub enum KeyOp {
     /// hand the thread's key to whichever thread wants it (possible only if `ThreadKey: Send`,
     /// which it must not be)
     Send,
+    /// ask for the key that many times in a row (a refused request must stay refused however
+    /// often it is repeated)
+    GetMany(u32),
 }
 
 #[derive(Clone, PartialEq, Eq, Debug, Serialize, Deserialize)]
